@@ -161,11 +161,19 @@ Proof. apply tokp_plain; [discriminate|reflexivity]. Qed.
 Lemma tokp_quote_or_nil s : clean s = true -> tokp (quote_or_nil s).
 Proof.
   intros H. destruct s as [|c s]; [apply tokp_NIL|].
-  unfold quote_or_nil. split; [discriminate|].
+  unfold quote_or_nil. rewrite H. split; [discriminate|].
   cbn [nosplit]. change (boundary (Norm, 0) 0 && false && is_sep DQ) with false. cbn iota.
   change (step (Norm, 0) DQ) with (Quo, 0). cbn [badish fst].
   change (br_step (Norm, 0) 0 DQ) with 0.
   apply nn_nosplit, nn_quoted, H.
+Qed.
+
+(** QuoteOrNIL of ANY string is one token: NIL, a quoted string, or (when the
+    string contains CR or LF) a literal *)
+Lemma tokp_quote_or_nil_any s : tokp (quote_or_nil s).
+Proof.
+  destruct (clean s) eqn:E; [now apply tokp_quote_or_nil|].
+  destruct s as [|c s]; [apply tokp_NIL|]. unfold quote_or_nil. rewrite E. apply tokp_lit_text.
 Qed.
 
 Lemma unescape_escape s : unescape (escape s) = s.
@@ -182,10 +190,10 @@ Proof.
         apply Ascii.eqb_neq in Hb. rewrite Hb. now rewrite IH.
 Qed.
 
-Lemma unquote_quote s : s <> [] -> unquote (quote_or_nil s) = Some s.
+Lemma unquote_quote s : s <> [] -> clean s = true -> unquote (quote_or_nil s) = Some s.
 Proof.
-  intros Hne. destruct s as [|c s]; [congruence|].
-  unfold quote_or_nil, unquote. change (Ascii.eqb DQ DQ) with true. cbn iota.
+  intros Hne Hc. destruct s as [|c s]; [congruence|].
+  unfold quote_or_nil. rewrite Hc. unfold unquote. change (Ascii.eqb DQ DQ) with true. cbn iota.
   rewrite rev_app_distr. cbn [rev app]. change (Ascii.eqb DQ DQ) with true. cbn iota.
   now rewrite rev_involutive, unescape_escape.
 Qed.
